@@ -19,6 +19,14 @@ func init() { Registry["DEBUG"] = Debug }
 
 func Debug(c *mc.Ctx) {
 	c.NoWrite = true
+	if d := os.Getenv("DEBUG_IC"); d != "" { // DEBUG_IC="<exploration name>|<depth>|op,op,..." : one C04 exploration with an ad-hoc alphabet
+		f := strings.Split(d, "|")
+		depth := 3
+		fmt.Sscanf(f[1], "%d", &depth)
+		runIC(c, "C04", c04Oracle, fix.Options{}, f[0], strings.Split(f[2], ","), depth)
+		fix.Cleanup()
+		return
+	}
 	if r := os.Getenv("DEBUG_RULE"); r != "" {
 		code, err := ioutil.ReadFile(r)
 		if r == "false" {
